@@ -534,7 +534,13 @@ func parseTrailer(t *protocol.Trailer, buf []byte) (int, error) {
 
 // writeTrailer writes response trailer to w
 func WriteTrailer(t *protocol.Trailer, w network.Writer) error {
-	_, err := w.WriteBinary(t.Header())
+	trailer := t.Header()
+	// the scratch buffer of t: the body stream is closed (application code) before the
+	// flush, and WriteBinary keeps buffers of 4 KiB and more by reference
+	if len(trailer) >= 4096 {
+		trailer = append(make([]byte, 0, len(trailer)), trailer...)
+	}
+	_, err := w.WriteBinary(trailer)
 	return err
 }
 
